@@ -50,6 +50,8 @@ def build_entry(sig, args):
 
 def admissible(K, specs, sig, args, consts=None):
     """do the arguments satisfy the kernel's requires?  (evaluated exactly)"""
+    from . import cexpr as _cx
+    _cx.WORK[0] = 0
     vars, mem = build_entry(sig, args)
     ghosts = make_ghosts(K, specs, vars, mem, consts or {})
     env = ConcEnv(specs, vars, mem, None, None, None, ghosts, None, consts or {}); env.old = env
@@ -64,6 +66,8 @@ def admissible(K, specs, sig, args, consts=None):
 
 def judge(K, specs, sig, args, res, consts=None):
     """-> list of (kind, clause text, detail) the execution violates; [] when the contract holds."""
+    from . import cexpr as _cx
+    _cx.WORK[0] = 0
     vars, mem = build_entry(sig, args)
     consts = consts or {}
     ghosts = make_ghosts(K, specs, vars, mem, consts)
@@ -99,6 +103,8 @@ def judge(K, specs, sig, args, res, consts=None):
     for e in list(K.ensures_) + list(K.bounded_):
         try:
             ok = post.truth(e)
+        except _cx.TooLarge:
+            continue          # too large to evaluate on this input: no verdict from this clause
         except (IndexError, ContractError, ZeroDivisionError, OverflowError, ValueError) as ex:
             bad.append(('post', e, 'clause could not be evaluated: %r' % (ex,)))
             continue
